@@ -2262,3 +2262,239 @@ func checkC11AllParents(c *Ctx) {
 		r.Bad(f.Name(), "parent look-up", f.Body.Pos(), "preload no longer looks the parents of a loaded row up in an identity map; rule lost its anchor")
 	}
 }
+
+// C17.replace-position (finding F15): the sorter resolves a name to the LAST entry carrying it (later
+// registrations override earlier ones) and, before that, stably moves the entries that ask for Before("*") /
+// After("*") to one end of the list.  A replacement entry without a side request of its own is therefore
+// separated from the wildcard entry it replaces: the OLD entry becomes the last one of that name, its handler
+// keeps running and the callback moves to the other end of the pipeline.  As long as the sorter reorders by the
+// side requests, Replace must give the replacement the side request of the entry it replaces.  Decided: if
+// sortCallbacks sorts its list with a comparison that reads .before/.after, (*callback).Replace assigns the
+// receiver's before and after from a same-named entry of the processor's list.
+func checkC17ReplacePosition(c *Ctx) {
+	p := c.P
+	r := c.Rule("C17.replace-position", "Replace gives the replacement the Before/After request of the entry it replaces (the sorter reorders entries by those requests before it resolves names)", 1)
+	cbT := p.Named(pkgGorm, "callback")
+	beforeF, afterF, nameF := p.Field(cbT, "before"), p.Field(cbT, "after"), p.Field(cbT, "name")
+	sorter := p.FuncDecl(pkgGorm, "sortCallbacks")
+	c.Touch(sorter)
+	sinfo := sorter.Pkg.TypesInfo
+	presort := false
+	for _, call := range callsIn(sorter) {
+		name := calleeName(sinfo, call)
+		if (name == "sort.SliceStable" || name == "sort.Slice" || name == "sort.Stable" || name == "sort.Sort") && len(call.Args) >= 1 {
+			ast.Inspect(call, func(n ast.Node) bool {
+				if sel, ok := n.(*ast.SelectorExpr); ok && (fieldSel(sinfo, sel, beforeF) || fieldSel(sinfo, sel, afterF)) {
+					presort = true
+				}
+				return true
+			})
+		}
+	}
+	if !presort {
+		r.OK(sorter.Name(), "no reordering by side requests", sorter.Body.Pos(), "entries keep their registration order until names are resolved")
+		return
+	}
+	f := p.MethodDecl(pkgGorm, "callback", "Replace")
+	c.Touch(f)
+	info := f.Pkg.TypesInfo
+	recv := recvName(f)
+	got := map[string]bool{}
+	nameTest := false
+	ast.Inspect(f.Body, func(n ast.Node) bool {
+		switch x := n.(type) {
+		case *ast.AssignStmt:
+			if len(x.Lhs) != len(x.Rhs) {
+				return true
+			}
+			for i, l := range x.Lhs {
+				ls, ok := unparen(l).(*ast.SelectorExpr)
+				if !ok {
+					continue
+				}
+				lid, ok := unparen(ls.X).(*ast.Ident)
+				if !ok || lid.Name != recv {
+					continue
+				}
+				rs, ok := unparen(x.Rhs[i]).(*ast.SelectorExpr)
+				if !ok {
+					continue
+				}
+				if rid := rootIdentOf(rs.X); rid != nil && rid.Name == recv && !strings.Contains(canon(info, rs.X), ".callbacks") {
+					continue // copied from itself
+				}
+				switch {
+				case fieldSel(info, ls, beforeF) && fieldSel(info, rs, beforeF):
+					got["before"] = true
+				case fieldSel(info, ls, afterF) && fieldSel(info, rs, afterF):
+					got["after"] = true
+				}
+			}
+		case *ast.BinaryExpr:
+			if x.Op == token.EQL {
+				for _, side := range []ast.Expr{x.X, x.Y} {
+					if sel, ok := unparen(side).(*ast.SelectorExpr); ok && fieldSel(info, sel, nameF) {
+						nameTest = true
+					}
+				}
+			}
+		}
+		return true
+	})
+	r.Check(got["before"] && got["after"] && nameTest, f.Name(), "replacement inherits the side request", f.Body.Pos(), "before/after copied from the same-named entry", "sortCallbacks moves Before(\"*\")/After(\"*\") entries before it resolves names to their last entry, but Replace appends a replacement without the side request of the entry it replaces: after Replace of a callback registered Before(\"*\") the OLD handler keeps running and the callback moves to the other end of the pipeline")
+}
+
+// C20.fk-flag: DisableForeignKeyConstraintWhenMigrating means "do not CREATE foreign-key constraints" - tables,
+// columns and the models a schema refers to are still migrated.  Decided (who-reads with a shape condition):
+// every read of that Config field in package migrator is in the condition of an `if` whose body emits a
+// constraint (a CreateConstraint call, or the Build of a parsed constraint) and nothing else depends on it.
+func checkC20FKFlag(c *Ctx) {
+	p := c.P
+	r := c.Rule("C20.fk-flag", "DisableForeignKeyConstraintWhenMigrating guards only the creation of foreign-key constraints", 2)
+	flag := p.Field(p.Named(pkgGorm, "Config"), "DisableForeignKeyConstraintWhenMigrating")
+	for _, f := range p.FuncsOf(pkgMigrator, pkgGorm, pkgCallbacks, pkgSchema) {
+		if f.Body == nil {
+			continue
+		}
+		info := f.Pkg.TypesInfo
+		parents := parentMap(f.Body)
+		ast.Inspect(f.Body, func(n ast.Node) bool {
+			if fl, ok := n.(*ast.FuncLit); ok && fl != f.Lit {
+				return false
+			}
+			sel, ok := n.(*ast.SelectorExpr)
+			if !ok || !fieldSel(info, sel, flag) {
+				return true
+			}
+			// a store (config plumbing) is not a read
+			if as, ok := parents[sel].(*ast.AssignStmt); ok {
+				for _, l := range as.Lhs {
+					if l == ast.Expr(sel) {
+						return true
+					}
+				}
+			}
+			c.Touch(f)
+			var ifs *ast.IfStmt
+			for cur := parents[sel]; cur != nil; cur = parents[cur] {
+				if x, ok := cur.(*ast.IfStmt); ok && x.Cond.Pos() <= sel.Pos() && sel.End() <= x.Cond.End() {
+					ifs = x
+					break
+				}
+				if _, ok := cur.(ast.Stmt); ok {
+					if _, isIf := cur.(*ast.IfStmt); !isIf {
+						break
+					}
+				}
+			}
+			var ifsList []*ast.IfStmt
+			if ifs != nil {
+				ifsList = append(ifsList, ifs)
+			} else {
+				// the flag held in a boolean local: every `if` testing that local is judged
+				for cur := parents[sel]; cur != nil; cur = parents[cur] {
+					as, ok := cur.(*ast.AssignStmt)
+					if !ok {
+						if _, isStmt := cur.(ast.Stmt); isStmt {
+							break
+						}
+						continue
+					}
+					if len(as.Lhs) == 1 {
+						if lid, ok := as.Lhs[0].(*ast.Ident); ok {
+							obj := info.ObjectOf(lid)
+							ast.Inspect(rootFunc(f).Body, func(m ast.Node) bool {
+								if x, ok := m.(*ast.IfStmt); ok {
+									uses := false
+									ast.Inspect(x.Cond, func(q ast.Node) bool {
+										if id, ok := q.(*ast.Ident); ok && info.ObjectOf(id) == obj {
+											uses = true
+										}
+										return true
+									})
+									if uses {
+										ifsList = append(ifsList, x)
+									}
+								}
+								return true
+							})
+						}
+					}
+					break
+				}
+			}
+			emits := len(ifsList) > 0
+			for _, ifs := range ifsList {
+				one := false
+				ast.Inspect(ifs.Body, func(m ast.Node) bool {
+					if ce, ok := m.(*ast.CallExpr); ok {
+						if fn, _ := typeutil.Callee(info, ce).(*types.Func); fn != nil {
+							switch {
+							case fn.Name() == "CreateConstraint":
+								one = true
+							case fn.Name() == "Build" && fn.Type().(*types.Signature).Recv() != nil && namedOf(fn.Type().(*types.Signature).Recv().Type()) == pkgSchema+".Constraint":
+								one = true
+							}
+						}
+					}
+					return true
+				})
+				if !one {
+					emits = false
+				}
+			}
+			r.Check(emits, f.Name(), "read of DisableForeignKeyConstraintWhenMigrating", sel.Pos(), "guards the emission of foreign-key constraints", "DisableForeignKeyConstraintWhenMigrating is read where no foreign-key constraint is created: with that option set, something other than constraints (ordering, auto-added referenced models, columns) is skipped and AutoMigrate leaves the schema incomplete")
+			return true
+		})
+	}
+}
+
+// C16.rule-copy: the OnConflict rule a Create carries is expanded (UpdateAll -> column list) and stored back.  What
+// is stored back must be the caller's rule with nothing but the expansion changed: either the looked-up value
+// itself, or a literal that sets every field of clause.OnConflict (UpdateAll may be left out once expanded).
+func checkC16RuleCopy(c *Ctx) {
+	p := c.P
+	r := c.Rule("C16.rule-copy", "the OnConflict rule stored back after expanding UpdateAll is the caller's rule, complete", 1)
+	f := p.FuncDecl(pkgCallbacks, "ConvertToCreateValues")
+	c.Touch(f)
+	info := f.Pkg.TypesInfo
+	ocT := p.Named(pkgClause, "OnConflict")
+	addClause := p.Method(p.Named(pkgGorm, "Statement"), "AddClause")
+	n := 0
+	for _, call := range callsIn(f) {
+		if fn, _ := typeutil.Callee(info, call).(*types.Func); fn != addClause || len(call.Args) != 1 {
+			continue
+		}
+		arg := unparen(call.Args[0])
+		if !types.Identical(info.TypeOf(arg), ocT) {
+			continue
+		}
+		n++
+		switch x := arg.(type) {
+		case *ast.Ident:
+			r.OK(f.Name(), "stores back "+x.Name, call.Pos(), "the looked-up rule itself")
+		case *ast.CompositeLit:
+			st := ocT.Underlying().(*types.Struct)
+			set := map[string]bool{}
+			for _, el := range x.Elts {
+				if kv, ok := el.(*ast.KeyValueExpr); ok {
+					if id, ok := kv.Key.(*ast.Ident); ok {
+						set[id.Name] = true
+					}
+				}
+			}
+			var missing []string
+			for i := 0; i < st.NumFields(); i++ {
+				if nm := st.Field(i).Name(); !set[nm] && nm != "UpdateAll" {
+					missing = append(missing, nm)
+				}
+			}
+			r.Check(len(missing) == 0, f.Name(), "stores back a rebuilt rule", call.Pos(), "every field copied", "the OnConflict rule stored back after the UpdateAll expansion is rebuilt without "+strings.Join(missing, ", ")+": that part of the caller's rule is lost (e.g. the WHERE of DO UPDATE - colliding rows are overwritten although the condition is false)")
+		default:
+			r.Unknown(f.Name(), "stores back a rule", call.Pos(), "cannot see what is stored back")
+		}
+	}
+	if n == 0 {
+		r.Bad(f.Name(), "rule stored back", f.Body.Pos(), "ConvertToCreateValues no longer stores the expanded OnConflict rule; rule lost its anchor")
+	}
+}
